@@ -24,8 +24,10 @@ EXPLANATION = (
     "each imaginary-part option, reduces to -(pi^2/90)(nb + 7/8 nf)T^4 for massless content "
     "(Jb(0), Jf(0) as hypotheses) and is bounded by the envelope of J for heavy content; the "
     "tables have a uniform strictly increasing grid on [-20,1000], zero imaginary column for "
-    "x>0, negative/increasing/concave real part down to the noise floor, and bounded fourth "
-    "differences (a single corrupted entry breaks this). Model values are compared with the "
+    "x>0, negative/increasing/concave real part down to the noise floor, bounded fourth "
+    "differences (a single corrupted entry breaks this), and imaginary columns equal to the "
+    "first-sheet closed forms pi(c^3/6 - x^2/32), pi x^2/32 to 1e-9 (certified enclosures of pi "
+    "and sqrt). Model values are compared with the "
     "running code by certified interval evaluation (integrands pointwise, wrappers under a "
     "tagging integrator, potential with stub integrals); the property itself is evaluated on "
     "the implementation against an independent quadrature of the complex logarithm.")
@@ -577,6 +579,23 @@ def direct(ctx, rng, D):
         if abs(got[0] - exact) > 1e-9 or got[1] != 0.0:
             ctx.fail_input("%s(0) = %r, closed form %r" % (tag, got, exact),
                            dict(kind="zero", cls=tag, got=got, want=exact), key="zero:" + tag)
+    # first-sheet closed forms of the imaginary parts (used by tables_imag_closed_form): the
+    # elementary integrals are not proved in Coq, so they are validated here against the
+    # independent quadrature AND the implementation
+    for _ in range(ctx.n(12, 120)):
+        xb = -rng.uniform(0.01, 4 * math.pi ** 2 - 0.01)
+        xf = -rng.uniform(0.01, math.pi ** 2 - 0.01)
+        cb = math.sqrt(-xb)
+        for tag, x, closed in (("Jb", xb, math.pi * (cb ** 3 / 6 - xb * xb / 32)),
+                               ("Jf", xf, math.pi * xf * xf / 32)):
+            kind, obj = objs[tag]
+            ctx.count("closed_form_imag_" + tag)
+            r, g = ref_J(kind, x)[1], impl_J(obj, x)[1]
+            if abs(r - closed) > 1e-9 * max(1.0, abs(closed)) or \
+                    abs(g - closed) > 1e-8 * max(1.0, abs(closed)):
+                ctx.fail_input("Im %s(%r): implementation %r, quadrature %r, closed form %r" % (
+                    tag, x, g, r, closed), dict(kind="closed", cls=tag, x=x, got=g, ref=r,
+                                                closed=closed), key="closed-form:" + tag)
     # (iii) table rows against the defining integral (value) -- every negative row always
     for tag, (kind, obj) in objs.items():
         T = tabs[tag]
@@ -587,7 +606,7 @@ def direct(ctx, rng, D):
         pos = [i for i in range(n) if xs[i] >= 0]
         if ctx.quick:
             step = max(1, len(pos) // 60)
-            idx += pos[::step] + pos[:8] + [pos[-1]]
+            idx += pos[::step] + pos[:12] + [pos[-1]]
         else:
             idx += pos
         for i in sorted(set(idx)):
